@@ -73,7 +73,7 @@ def cases(tier: str, seed: int) -> List[Dict[str, Any]]:
     return out
 
 
-def _close(a: Any, b: Any, tol: float) -> bool:
+def _close(a: Any, b: Any, tol: float, floor: float = 0.0) -> bool:
     import torch
 
     if a is None or b is None:
@@ -83,7 +83,7 @@ def _close(a: Any, b: Any, tol: float) -> bool:
     a64, b64 = a.detach().to(torch.float64), b.detach().to(torch.float64)
     if not torch.isfinite(b64).all():
         return bool(torch.equal(torch.isfinite(a64), torch.isfinite(b64)))
-    sc = max(float(b64.abs().max()), 1e-300) if b64.numel() else 1.0
+    sc = max(float(b64.abs().max()), 1e-300, floor) if b64.numel() else 1.0
     return bool(((a64 - b64).abs() <= tol * sc + tol * b64.abs()).all())
 
 
@@ -174,6 +174,11 @@ def run_case(case: Dict[str, Any]) -> Dict[str, Any]:
         dev = [k for k, v in op.coords.items() if cfg.get(k) != v[0] and k != "dtype"]
         ident = f"fn|{be_name}|{op.name}|dtype={cfg['dtype']}|dev={'+'.join(dev) or 'none'}"
         tol = TOL[cfg["dtype"]]
+        if be_name == "inductor" and ((op.name == "dropout" and cfg["training"] and cfg["p"] > 0)
+                                      or (op.name == "scaled_dot_product_attention" and cfg["dropout_p"] > 0)):
+            return {"skipped": "inductor draws random numbers from its own generator: not comparable with eager"}
+        if op.name == "rms_norm" and cfg["dtype"] == "float64":
+            tol = 5e-6  # the RMS statistic is computed in float32 by design
         try:
             t0 = op.make(cfg, torch.Generator().manual_seed(11))
             diff = diff_names(op, t0, cfg)
@@ -204,7 +209,7 @@ def run_case(case: Dict[str, Any]) -> Dict[str, Any]:
             what = "output"
         else:
             for k, a, b in zip(diff, gc, ge):
-                if not _close(a, b, tol):
+                if not _close(a, b, tol, floor=3.0):
                     what = f"grad[{k}]"
                     break
         if what:
@@ -216,6 +221,8 @@ def run_case(case: Dict[str, Any]) -> Dict[str, Any]:
         dtype = tdtype(case["dtype"])
         ident = f"module|{be_name}|{case['module']}|dtype={case['dtype']}"
         tol = TOL[case["dtype"]] * (50 if case["module"].startswith(("Transformer", "MHSA", "MLP")) else 1)
+        if case["dtype"] == "float64" and case["module"].startswith(("RMSNorm", "Transformer")):
+            tol = max(tol, 5e-6)  # RMS statistic in float32 by design
         try:
             m, args = _module(case["module"], dtype)
             m2 = copy.deepcopy(m)
@@ -234,7 +241,7 @@ def run_case(case: Dict[str, Any]) -> Dict[str, Any]:
             viol.append({"key": ident + "|compiled_differs|output", "msg": f"max err {(yc.double() - ye.double()).abs().max().item():.3e}"})
         else:
             for j, (a, b) in enumerate(zip(gc, ge)):
-                if not _close(a, b, tol):
+                if not _close(a, b, tol, floor=3.0):
                     viol.append({"key": ident + "|compiled_differs|grad", "msg": f"gradient {j}"})
                     break
         # plain fx symbolic tracing reproduces the forward values
@@ -256,6 +263,8 @@ def run_case(case: Dict[str, Any]) -> Dict[str, Any]:
     d = 8
     ident = f"comp|{be_name}|len={len(case['ops'])}|dtype={case['dtype']}|ops={'+'.join(sorted(set(case['ops'])))}"
     tol = TOL[case["dtype"]] * 20
+    if case["dtype"] == "float64" and "rms_norm" in case["ops"]:
+        tol = max(tol, 5e-6)  # RMS statistic in float32 by design
     fns = [_unary(n, d, dtype) for n in case["ops"]]
 
     def eager(x: Any) -> Any:
@@ -276,7 +285,7 @@ def run_case(case: Dict[str, Any]) -> Dict[str, Any]:
         return {"violations": [exception_violation(e, ident)], "outcome": "raises"}
     if not _close(yc, ye, tol):
         viol.append({"key": ident + "|compiled_differs|output", "msg": f"{case['ops']}"})
-    elif not _close(gc[0], ge[0], tol):
+    elif not _close(gc[0], ge[0], tol, floor=3.0):
         viol.append({"key": ident + "|compiled_differs|grad", "msg": f"{case['ops']}"})
     # fx forward
     try:
